@@ -40,10 +40,37 @@ def malformed(rng, text):
     return sqlgen.mutate(rng, sqlgen.mutate(rng, text))
 
 
+CLASS_REPS = ["7", "2.5", "'10'", "\"q\"", "NULL", "TRUE", "x'1F'", "b'10'", "0x1F", "0b1", "1e3", "1_0", "٣", "zz", "`z z`", "SELECT", "FROM", "AS", "+", "-2", ",", "(1)", "()", "[1]", ".",
+              "=", "*", "CASE", "NOT", "(SELECT 1)"]
+
+
+def class_substitutions(rng, text, positions):
+    """replace one token of a valid text by a token of every other lexical class (the integer-only, name-only, keyword-only positions of the grammar each get every
+    kind of literal, word, operator and bracket group)"""
+    import re
+    from props import c09
+    spans, pos = [], 0
+    for code, piece in c09.segments(text):
+        if code:
+            spans += [(pos + m.start(), pos + m.end()) for m in re.finditer(r"\d+(?:\.\d+)?|\w+|[^\s\w]", piece)]
+        pos += len(piece)
+    if not spans:
+        return []
+    ints = [sp for sp in spans if text[sp[0]:sp[1]].isdigit()]
+    chosen = [rng.choice(spans) for _ in range(positions)] + ints[:3]
+    out = []
+    for a, b in chosen:
+        for rep in CLASS_REPS:
+            if rep != text[a:b]:
+                out.append(text[:a] + rep + text[b:])
+    return out
+
+
 def run(ctx):
     n = 4000 if ctx.quick else 80000
     ctx.cov["rule"] = ("for every modelled parse_* entry point (%d) and dialect: character and token prefixes of valid texts, single-token deletion / duplication / swap / "
-                       "replacement / insertion, token soups, bracket nesting to depth %d, the regression corpus; correspondence on outcome kind and tree; oracle: the "
+                       "replacement / insertion, substitution of one token by a token of every other lexical class (every kind of literal, word, keyword, operator, bracket group) in "
+                       "tree-first generated statements of every class, token soups, bracket nesting to depth %d, the regression corpus; correspondence on outcome kind and tree; oracle: the "
                        "implementation's outcome is a tree or the library's parse-error family, never a foreign exception, never a time-out (5 s), and a sentinel statement "
                        "parsed between the malformed inputs in the same process always gives the same tree. distinct_nontrivial = distinct accepted trees" % (len(ENTRIES), DEPTH))
     ctx.assumptions += ["termination is observed as a 5 s time-out per request; RecursionError is outside the model and is a violation only at nesting depth ≤ %d" % DEPTH,
@@ -62,6 +89,12 @@ def run(ctx):
         reqs.append(pfam.req_parse(d, t, e)); meta.append((e, d, t, "malformed"))
         if i % 10 == 9:
             reqs.append(sent); meta.append(("statements",) + SENTINEL + ("sentinel",))
+    bases = [(d, t) for d, t in pfam.tree_texts(ctx.rng.fork("trees"), 25 if ctx.quick else 400, ["MYSQL", "HIVE", "DEFAULT"])]
+    for d, t in bases:
+        if len(t) > 1200:
+            continue
+        for v in class_substitutions(r, t, 2 if ctx.quick else 4):
+            reqs.append(pfam.req_parse(d, v)); meta.append(("statements", d, v, "class-substitution"))
     for depth in sorted(set([1, 2, 3, 8, 16, 32, 48, DEPTH])):
         for e, mk in (("logical_or_level_expression", lambda k: "(" * k + "a + 1" + ")" * k), ("statements", lambda k: "SELECT " + "(" * k + "1" + ")" * k),
                       ("statements", lambda k: "SELECT * FROM " + "(SELECT * FROM " * k + "t" + ") q" * k), ("compute_expression", lambda k: "f(" * k + "1" + ")" * k),
